@@ -50,6 +50,11 @@ var elemNameParams = map[string][]int{
 	"(*expr.MappedAttributeExpr).KeyName": {0},
 }
 
+// elemNameFields: struct fields (reference names) that hold a transport element name.
+var elemNameFields = map[string]string{
+	"HTTPName": "element name",
+}
+
 // RoleSites counts, and RoleMisuses lists, the role-typed argument positions
 // inside the WalkMappedAttr callbacks of f.
 func RoleMisuses(f *Func) (sites int, out []RoleMisuse) {
@@ -97,6 +102,38 @@ func RoleMisuses(f *Func) (sites int, out []RoleMisuse) {
 				return true
 			})
 		}
+		// struct fields with a name role: the wire name of a transport element is the element name
+		ast.Inspect(lit.Body, func(m ast.Node) bool {
+			kv, ok := m.(*ast.KeyValueExpr)
+			if !ok {
+				return true
+			}
+			k, ok := kv.Key.(*ast.Ident)
+			if !ok {
+				return true
+			}
+			fv, _ := info.Uses[k].(*types.Var)
+			if fv == nil || !fv.IsField() {
+				return true
+			}
+			role, known := elemNameFields[CanonFieldName(fv)]
+			if !known {
+				return true
+			}
+			id, ok := ast.Unparen(kv.Value).(*ast.Ident)
+			if !ok {
+				return true
+			}
+			o := info.Uses[id]
+			if o != nameP && o != elemP {
+				return true
+			}
+			sites++
+			if o == nameP {
+				out = append(out, RoleMisuse{nil, "field " + k.Name, id.Name, "attribute name", role, kv.Pos()})
+			}
+			return true
+		})
 		ast.Inspect(lit.Body, func(m ast.Node) bool {
 			c2, ok := m.(*ast.CallExpr)
 			if !ok {
